@@ -243,7 +243,7 @@ inline Plan Gen(uint64_t seed)
             // an operation from inside a GetPulseTime() callback: it may touch only what lies below the node that is being asked
             std::vector<int> withKids; for (int q : all) {bool k = false; for (int i=0; i<s.hi; i++) if ((s.g[(size_t)i].alive)&&(i != q)&&(s.InSubtree(i, q))) k = true; if ((k)&&(s.Attached(q))) withKids.push_back(q);}
             const int qn = withKids.empty() ? n : wl.pick(withKids);
-            std::vector<int> below; for (int i=0; i<s.hi; i++) if ((s.g[(size_t)i].alive)&&(i != qn)&&(s.InSubtree(i, qn))) below.push_back(i);
+            std::vector<int> below; for (int i=0; i<s.hi; i++) if ((s.g[(size_t)i].alive)&&(i != qn)&&(s.Attached(i))&&(s.Top(i) == s.Top(qn))&&(!s.InSubtree(qn, i))&&((s.InSubtree(i, qn))||(wl.oneIn(2)))) below.push_back(i);
             std::vector<int> loose; for (int i=0; i<s.hi; i++) if ((s.g[(size_t)i].alive)&&(!s.IsRoot(i))&&(s.g[(size_t)i].parent < 0)&&(!s.InSubtree(qn, i))) loose.push_back(i);
             std::string l = "inq " + I(qn);
             const uint32_t c = wl.below(10);
@@ -321,6 +321,8 @@ inline Plan Gen(uint64_t seed)
    X(P_CB_DETACH, "p.in_callback_detach") \
    X(P_INQ_INVALIDATE, "p.in_getpulsetime_invalidate_descendant") \
    X(P_INQ_ATTACH, "p.in_getpulsetime_attach_below") \
+   X(P_INQ_SIDEWAYS, "p.in_getpulsetime_invalidate_sibling_or_cousin") \
+   X(P_REQUERIED_LATER_SAME_RECALC, "p.answered_later_within_same_recalculation") \
    X(P_REQUERY_NO_CAUSE, "p.requeried_without_cause") \
    X(P_DEFERRAL, "p.displaced_branch_deferral") \
    X(P_DEFERRAL_REPARENT, "p.deferral_by_in_callback_reparent_only") \
@@ -364,6 +366,8 @@ public:
    uint64_t _period;
    std::vector<std::vector<std::string> > _incb;   // operations to perform from inside our next Pulse()
    std::vector<std::vector<std::string> > _inq;    // operations to perform from inside our next GetPulseTime() (regular recalculation only)
+   uint64_t _lastQueryRecalc = 0;                  // number of the recalculation that last asked us
+   uint64_t _startForce = kNever;                  // the time we had in force when the current recalculation began (kNever: none)
 };
 
 class Mgr : public PulseNodeManager
@@ -379,12 +383,12 @@ struct H
    std::vector<Node *> nodes;    // by id
    Mgr mgr;
    bool failed; std::string fcls, fdetail;   // first violation noticed inside a library callback (thrown once the library call has returned)
-   bool inSweep, inRecalc, quiet, allowInq; uint64_t sweepNo, curT; Node * running;
+   bool inSweep, inRecalc, quiet, allowInq, staleMinPossible; uint64_t recalcNo; uint64_t sweepNo, curT; Node * running;
    std::vector<uint8_t> displaced, onStack; std::vector<uint64_t> rootT; std::vector<int> deferred;
    uint64_t callbacks, sweeps, queries, followups, faultsFired, lastNext;
    uint64_t ctr[NUM_K]; uint64_t maxNodes, maxAttached, maxDepth, maxPulsed;
 
-   H(const Plan & plan, RunResult & r) : res(r), cfg(plan), failed(false), inSweep(false), inRecalc(false), quiet(false), allowInq(false), sweepNo(0), curT(0), running(NULL),
+   H(const Plan & plan, RunResult & r) : res(r), cfg(plan), failed(false), inSweep(false), inRecalc(false), quiet(false), allowInq(false), staleMinPossible(false), recalcNo(0), sweepNo(0), curT(0), running(NULL),
       displaced((size_t) kMaxId+1, 0), onStack((size_t) kMaxId+1, 0), callbacks(0), sweeps(0), queries(0), followups(0), faultsFired(0), lastNext(kNever), maxNodes(0), maxAttached(0), maxDepth(0), maxPulsed(0)
    {
       for (int k=0; k<NUM_K; k++) ctr[k] = 0;
@@ -506,6 +510,10 @@ struct H
       // (GetPulseTime()'s documentation lists the situations in which it is called; being asked once more without one of those causes is not something the
       //  property forbids -- the answer simply becomes the requested time in force -- so it is counted, not judged.  It used to be a violation class: removed as over-strict.)
       if (n->_valid) ctr[K_P_REQUERY_NO_CAUSE]++;
+      // asked a second time within ONE recalculation (a callback re-timed it after it had answered) and now answering LATER: the smaller first answer has
+      // already been folded into the recalculation's running minimum, which only ever decreases
+      if ((inRecalc)&&(n->_lastQueryRecalc == recalcNo)&&(n->_want > n->_reported)) {staleMinPossible = true; ctr[K_P_REQUERIED_LATER_SAME_RECALC]++;}
+      n->_lastQueryRecalc = recalcNo;
       n->_reported = n->_want; n->_valid = true; n->_cause = CAUSE_NONE;
       th.u(0x51); th.u((uint64_t) n->_id); th.u(n->_want); th.u(callTime); th.u(prevTime);
       if (g_verbose) fprintf(stderr, "      GetPulseTime(node %d; now=%llu prev=%s) -> %s\n", n->_id, (unsigned long long) callTime, TimeStr(prevTime).c_str(), TimeStr(n->_want).c_str());
@@ -520,13 +528,24 @@ struct H
             if (t.empty()) continue;
             if (((t[0] == "want")||(t[0] == "invalidate")||(t[0] == "wantq"))&&(t.size() >= 2))
             {
-               Node * x = Get(ToI(t[1])); if ((x == NULL)||(x == n)||(!InSubtree(x, n))) continue;
+               // any node of the same managed tree may be touched EXCEPT n itself and n's ancestors (their own query is already behind them in this very recalculation):
+               // a sibling or cousin that was already recalculated lands on a needs-recalculation list again and must be revisited before the recalculation returns
+               Node * x = Get(ToI(t[1])); if ((x == NULL)||(InSubtree(n, x))||(RootOf(x) < 0)||(RootOf(x) != RootOf(n))) continue;
+               if (!InSubtree(x, n))
+               {
+                  ctr[K_P_INQ_SIDEWAYS]++;
+                  // x (or the branch it lies in) may already have been folded into this recalculation's running minimum with its time still in force; if it is
+                  // now re-timed to something later, that earlier contribution cannot be withdrawn (known finding F31: the reported time can only be too EARLY)
+                  uint64_t tm = x->_want; const bool isInv = (t[0] == "invalidate");
+                  const uint64_t folded = std::min(x->_startForce, (x->_lastQueryRecalc == recalcNo) ? x->_reported : kNever);   // the earliest time of x this recalculation may already have used
+                  if (((isInv)||((t.size() >= 3)&&(ParseTime(t[2], g_simNowUs, tm))))&&((isInv ? x->_want : tm) > folded)&&(t[0] != "wantq")) {staleMinPossible = true; ctr[K_P_REQUERIED_LATER_SAME_RECALC]++;}
+               }
                th.s("inq"); ctr[K_P_INQ_INVALIDATE]++; OpWant(t, 0, NULL);
             }
             else if ((t[0] == "attach")&&(t.size() >= 3))
             {
                Node * x = Get(ToI(t[1])), * y = Get(ToI(t[2]));
-               if ((x == NULL)||(y == NULL)||(IsRoot(x))||(x->_mparent >= 0)||(!InSubtree(y, n))||(InSubtree(y, x))||(InSubtree(n, x))) continue;
+               if ((x == NULL)||(y == NULL)||(IsRoot(x))||(x->_mparent >= 0)||(RootOf(y) < 0)||(RootOf(y) != RootOf(n))||(InSubtree(y, x))||(InSubtree(n, x))) continue;
                th.s("inq"); ctr[K_P_INQ_ATTACH]++; OpAttach(t, 0, NULL);
             }
          }
@@ -567,6 +586,8 @@ struct H
    {
       const uint64 now = GetRunTime64();
       uint64 mn = kNever;
+      recalcNo++; staleMinPossible = false;
+      for (Node * n : nodes) if (n) n->_startForce = n->_valid ? n->_reported : kNever;
       inRecalc = true;
       for (int r=0; r<numRoots; r++) mgr.Recalc(*nodes[(size_t)r], now, mn);
       inRecalc = false;
@@ -588,6 +609,7 @@ struct H
       if (nAll > maxNodes) maxNodes = nAll;
       if (nAtt > maxAttached) maxAttached = nAtt;
       if ((uint64_t) maxDepth > this->maxDepth) this->maxDepth = (uint64_t) maxDepth;
+      if ((mn < mm)&&(staleMinPossible)) Fail("root_time_too_early_after_later_answer_in_same_recalculation", "the manager was told to wake at " + TimeStr(mn) + " but the minimum over the " + U(nAtt) + " attached nodes' requested times is " + TimeStr(mm) + ": a node that had already answered in this recalculation was re-timed from inside another node's GetPulseTime() and answered a later time, but its first answer stays in the running minimum (effect: one early wake-up that pulses nothing)");
       if (mn != mm) Fail("root_time_not_min", "the manager was told to wake at " + TimeStr(mn) + " but the minimum over the " + U(nAtt) + " attached nodes' requested times is " + TimeStr(mm) + (who ? " (" + Desc(who) + ")" : std::string()));
       th.u(0x52); th.u(mn);
       if (g_verbose) fprintf(stderr, "   recalculated at %llu: next pulse %s\n", (unsigned long long) now, TimeStr(mn).c_str());
